@@ -21,7 +21,7 @@ The write itself
 * `no_collisions_nodup`     if the model predicts no collision for a run, its per-declaration files are pairwise distinct paths
 * `nodup_noOverwrite`       and a log with pairwise distinct paths satisfies the specification whatever the contents
 -/
-namespace Pydjinni.Gen
+namespace Pydjinni.GenC
 
 /-! ### identifier conversion -/
 
@@ -294,10 +294,10 @@ theorem nodup_noOverwrite {κ : Type} [DecidableEq κ] (log : List (String × κ
     rw [eq_of_nodup_fst log h a b ha hb hab]
   · left; exact hab
 
-end Pydjinni.Gen
+end Pydjinni.GenC
 
-namespace Pydjinni.Sys
-open Pydjinni.Gen
+namespace Pydjinni.SysC
+open Pydjinni.GenC
 
 /-- `no_refusal`: the writer is unconditional — a second write to a path is logged and recorded like the
     first one; the code never turns a collision into a diagnostic. -/
@@ -305,4 +305,4 @@ theorem write_unconditional {κ : Type} (s : FRW κ) (key : String) (kind : FKin
     (s.step (.write key kind p c)).log = s.log ++ [(p, c)] ∧ (s.step (.write key kind p c)).used = s.used ++ [key] := by
   simp [FRW.step, FRW.upd]
 
-end Pydjinni.Sys
+end Pydjinni.SysC
